@@ -338,3 +338,48 @@ void harness_setters(void)
 	evhttp_uri_free(u2);
 	VP_ASSERT(vp_alloc_calls == vp_free_calls, "C28: evhttp_uri_free leaves memory behind");
 }
+
+/* --------------------------------------------------------------- join limit
+ * evhttp_uri_join(uri, buf, limit) on a parsed URI: succeeds exactly when the joined text plus its NUL fits
+ * into `limit` bytes, then returns buf holding the same text as a join into a large buffer; it never writes
+ * at or behind buf[limit] (bytes there keep their solver-chosen values), also when it refuses.
+ */
+void harness_join_limit(void)
+{
+	unsigned char s[VP_L + 1];
+	char big[VP_JMAX], buf[VP_JMAX], canary[VP_JMAX];
+	struct evhttp_uri *u;
+	size_t tlen = (size_t)vp_range(0, VP_N), i, full, limit = (size_t)vp_range(0, VP_JMAX);
+	unsigned flags = vp_flags();
+	int same = 1, intact = 1;
+	char *j;
+
+	for (i = 0; i < VP_PLEN; i++) s[i] = (unsigned char)VP_PREFIX[i];
+	vp_bytes(s + VP_PLEN, VP_N);
+	for (i = 0; i < VP_N; i++) {
+		if (i >= tlen) s[VP_PLEN + i] = 0;
+		else __CPROVER_assume(s[VP_PLEN + i] != 0);
+	}
+	s[VP_L] = 0;
+	vp_v6_verdict = vp_bool();
+	u = evhttp_uri_parse_with_flags((const char *)s, flags);
+	if (u == NULL) return;
+	j = evhttp_uri_join(u, big, sizeof(big));
+	VP_ASSERT(j == big, "C28: evhttp_uri_join refuses a parsed URI");
+	if (j != big) return;
+	full = strlen(big) + 1;
+	vp_bytes(canary, VP_JMAX);
+	for (i = 0; i < VP_JMAX; i++) buf[i] = canary[i];
+	j = evhttp_uri_join(u, buf, limit);
+	VP_ASSERT((j != NULL) == (limit >= full), "C28: evhttp_uri_join succeeds exactly when the text and its NUL fit into limit");
+	VP_ASSERT(j == NULL || j == buf, "C28: evhttp_uri_join returns its buffer or NULL");
+	for (i = 0; i < VP_JMAX; i++) {
+		if (i >= limit && buf[i] != canary[i]) intact = 0;
+		if (j != NULL && i < full && buf[i] != big[i]) same = 0;
+	}
+	VP_ASSERT(intact, "C28: evhttp_uri_join writes outside the limit it was given");
+	VP_ASSERT(same, "C28: evhttp_uri_join result depends on the limit");
+	if (j == NULL && limit > 0) VP_WITNESS("join: refused, does not fit");
+	if (j != NULL && limit == full) VP_WITNESS("join: fits exactly");
+	evhttp_uri_free(u);
+}
